@@ -296,7 +296,9 @@ func lifecycleLists(c *engine.Ctx) {
 		func() *sbom.DocumentType { return &sbom.DocumentType{Type: sbom.DocumentType_BUILD.Enum()} },
 		func() *sbom.DocumentType { return &sbom.DocumentType{Type: sbom.DocumentType_DESIGN.Enum()} },
 		func() *sbom.DocumentType { return &sbom.DocumentType{Type: sbom.DocumentType_DEPLOYED.Enum()} },
-		func() *sbom.DocumentType { return &sbom.DocumentType{Name: s("custom-one"), Description: s("first custom phase")} },
+		func() *sbom.DocumentType {
+			return &sbom.DocumentType{Name: s("custom-one"), Description: s("first custom phase")}
+		},
 		func() *sbom.DocumentType { return &sbom.DocumentType{Name: s("custom-two")} },
 	}
 	labels := []string{"BUILD", "DESIGN", "DEPLOYED", "custom(name,desc)", "custom(name)"}
@@ -456,7 +458,9 @@ func treeCases(c *engine.Ctx, names []string, par []int) {
 			perm := append([]int{}, p...)
 			for _, f := range versions {
 				f, ei := f, ei
-				c.Case(func() any { return map[string]any{"parents": par, "encoding": []string{"per-child", "per-parent"}[ei], "edge-order": perm, "format": string(f)} }, func(t *engine.T) *engine.Violation {
+				c.Case(func() any {
+					return map[string]any{"parents": par, "encoding": []string{"per-child", "per-parent"}[ei], "edge-order": perm, "format": string(f)}
+				}, func(t *engine.T) *engine.Violation {
 					spec := gen.ListSpec{Nodes: append([]string{"r"}, names...), Roots: []string{"r"}}
 					for _, i := range perm {
 						spec.Edges = append(spec.Edges, enc[i])
@@ -589,7 +593,9 @@ type dev struct {
 
 func menu() []dev {
 	var m []dev
-	add := func(slot, name string, f func(r, a *sbom.Node)) { m = append(m, dev{Name: slot + "=" + name, Slot: slot, Do: f}) }
+	add := func(slot, name string, f func(r, a *sbom.Node)) {
+		m = append(m, dev{Name: slot + "=" + name, Slot: slot, Do: f})
+	}
 	txt := []string{"x", "Ünï cödé ✓ 日本", "a b", "q\"uo\\te <&> {}[]:,", "  lead", "trail  ", "multi\nline", "protobom-auto--x", "x (y)", strings.Repeat("long", 300)}
 	for wi, who := range []string{"root", "child"} {
 		wi := wi
@@ -609,7 +615,9 @@ func menu() []dev {
 		add(who+".kind", "file", func(r, a *sbom.Node) { pick(r, a).Type = sbom.Node_FILE; pick(r, a).PrimaryPurpose = nil })
 		add(who+".purl", "p", func(r, a *sbom.Node) { setID(pick(r, a), sbom.SoftwareIdentifierType_PURL, "pkg:npm/x@1?a=b") })
 		add(who+".cpe", "22", func(r, a *sbom.Node) { setID(pick(r, a), sbom.SoftwareIdentifierType_CPE22, "cpe:/a:x:y:1") })
-		add(who+".cpe", "23", func(r, a *sbom.Node) { setID(pick(r, a), sbom.SoftwareIdentifierType_CPE23, "cpe:2.3:a:x:y:1:*:*:*:*:*:*:*") })
+		add(who+".cpe", "23", func(r, a *sbom.Node) {
+			setID(pick(r, a), sbom.SoftwareIdentifierType_CPE23, "cpe:2.3:a:x:y:1:*:*:*:*:*:*:*")
+		})
 		add(who+".licenses", "1", func(r, a *sbom.Node) { pick(r, a).Licenses = []string{"MIT"} })
 		add(who+".licenses", "2", func(r, a *sbom.Node) { pick(r, a).Licenses = []string{"MIT", "Apache-2.0"} })
 		add(who+".licenses", "3", func(r, a *sbom.Node) { pick(r, a).Licenses = []string{"GPL-2.0-only", "MIT", "ISC"} })
